@@ -35,7 +35,7 @@ def reach(fn, body):
         return False, []
     if fn.helper == '':
         return not _GENERIC.search(body), ['<no generic call>']
-    found = sorted(set(re.findall(r'\b(?:%s)\w*' % fn.helper, body)))
+    found = sorted(set(re.findall(r'(?:%s)\w*' % fn.helper, body)))
     return bool(found), found
 
 
@@ -84,6 +84,10 @@ def strlen_kind(expr):
 CINT_ROLES = {'index', 'smallidx', 'maxsplit', 'chrarg', 'byteval', 'tinyint'}
 
 
+RECV_LITERAL_KINDS = {'list': ('list', 'mkmutlist'), 'dict': ('dictset', 'mkmutdict'), 'set': ('dictset', 'set'), 'str': ('str',),
+                      'bytes': ('bytes',), 'bytearray': ('bytearray',), 'tuple': ('tuple',), 'frozenset': ('frozenset',)}
+
+
 def classify(fn, exprs, exp, got):
     """mechanism key from the template, the receiver typing and the kinds of the arguments"""
     spec = fn.spec
@@ -93,23 +97,48 @@ def classify(fn, exprs, exp, got):
     roles = ['recv'] + [r if isinstance(r, str) else 'enum' for r in spec.roles]
     if spec.recv_pool in (['chrarg'],) or spec.recv == 'chrarg':
         roles[0] = 'chrarg'
+    # --- unbound method forms: T.meth(x, ...) with x not (exactly) a T -----------------------------------------
+    if spec.name.endswith('-unbound') and kinds[0] not in RECV_LITERAL_KINDS.get(spec.recv, ()):
+        # the receiver is used as a T without a type test (None gets the bound-call AttributeError, other objects are
+        # handed to the C-level helper, subclasses are dispatched virtually)
+        return 'unbound-method-receiver-type-unchecked:%s' % spec.recv
+    # --- typed receiver holding None, method called through the cached unbound C method ------------------------
+    if fn.typing == 'typed' and kinds[0] == 'None' and ek == 'exc:AttributeError' and gk != 'exc:AttributeError' and fn.helper is None:
+        return 'typed-none-receiver-unchecked:cached-method'
     # --- known mechanisms (recon #11, #16, #17) ---------------------------------------------------------------
     if fam.startswith('ord') and ek == 'exc:TypeError' and gk == 'exc:ValueError' and kinds[0] in ('str', 'bytes', 'bytearray', 'S', 'B'):
         return 'ord-multichar-error-type'
     cint_args = [(r, k) for r, k in zip(roles, kinds) if r in CINT_ROLES]
     if cint_args:
+        grp = ('tailmatch' if 'swith' in spec.name else 'find' if ('find' in spec.name or 'count' in spec.name) else
+               'slice-decode' if 'slice-decode' in spec.name else fam)
         if gk == 'exc:OverflowError' and ek != 'exc:OverflowError' and any(k == 'int:huge' or k == 'Idx' for r, k in cint_args):
-            grp = ('tailmatch' if 'swith' in spec.name else 'find' if ('find' in spec.name or 'count' in spec.name) else
-                   'slice-decode' if 'slice-decode' in spec.name else fam)
             return 'huge-bound-overflow-%s' % grp
         if ek == 'exc:TypeError' and gk != 'exc:TypeError' and any(k in ('float', 'IntOnly', 'F') for r, k in cint_args):
-            return 'cint-from-nb_int:%s' % fam
+            return 'cint-from-nb_int:%s' % grp
         if gk == 'exc:TypeError' and ek != 'exc:TypeError' and any(k in ('Idx',) for r, k in cint_args):
-            return 'cint-rejects-index-only:%s' % fam
-        if ek != 'exc:TypeError' and gk == 'exc:TypeError' and any(k == 'None' for r, k in cint_args) and \
-                ('swith' in spec.name or 'find' in spec.name or 'count' in spec.name or 'slice-decode' in spec.name):
-            return 'none-bound-rejected:%s' % ('tailmatch' if 'swith' in spec.name else 'find' if ('find' in spec.name or 'count' in spec.name) else 'slice-decode')
+            return 'cint-rejects-index-only:%s' % grp
+        if any(k == 'None' for r, k in cint_args) and ek != gk and (ek == 'exc:TypeError' or gk == 'exc:TypeError'):
+            # None where CPython wants an int (split maxsplit, replace count) or accepts None (start/end)
+            return 'none-for-int-argument:%s' % grp
+    if spec.name == 'set-lit.contains' and ek.startswith('exc:') and gk == 'ok:bool':
+        return 'in-set-literal-flattened-no-hash'
+    if fn.typing == 'untyped' and ek == 'exc:AttributeError' and gk.startswith('exc:') and gk != ek and '.' in spec.name \
+            and kinds[0] not in RECV_LITERAL_KINDS.get(spec.recv, ()):
+        # x.meth(<args>) with x lacking the method: CPython fails on the attribute lookup before the arguments
+        # are evaluated, the compiled call evaluates the arguments first
+        return 'method-lookup-after-argument-evaluation'
     return '%s:%s:%s:%s->%s' % (spec.name, fn.typing, ','.join(kinds), ek, gk)
+
+
+def classify_crash(fn, exprs, crash):
+    kinds = [akind(e) for e in exprs]
+    spec = fn.spec
+    if spec.name.endswith('-unbound') and kinds[0] not in RECV_LITERAL_KINDS.get(spec.recv, ()):
+        return 'unbound-method-receiver-type-unchecked:%s' % spec.recv
+    if fn.typing == 'typed' and kinds[0] == 'None' and fn.helper is None:
+        return 'typed-none-receiver-unchecked:cached-method'
+    return 'crash:%s:%s:%s' % (spec.name, fn.typing, ','.join(kinds))
 
 
 def build_all(ck, tree, fns, per_mod, tagbase):
@@ -234,7 +263,7 @@ def main(ck):
         for c in res.crashes:
             f = byname[c['case']['f']]
             exprs = f.cases[c['case']['ci']][1]
-            ck.discrepancy('crash:%s:%s:%s' % (f.spec.name, f.typing, ','.join(akind(e) for e in exprs)),
+            ck.discrepancy(classify_crash(f, exprs, c),
                            'crash/hang %s in %s [%s] on %s' % (c['kind'], f.spec.expr, f.typing, c['case']['a']),
                            {'module_source': G.HEADER + f.src, 'ref_source': G.HEADER + f.ref, 'ext': '.pyx',
                             'case': {k: v for k, v in c['case'].items() if k != 'ci'}, 'setup': G.SETUP, 'stderr': c['stderr'][-1500:]})
